@@ -1,13 +1,31 @@
 #!/venv/bin/python
-"""tools/wave3doc.py -- refresh the third-wave rows and counts of DESIGN.md 12.6 from seeded/*/meta.json (idempotent)."""
-import json, pathlib, re, subprocess
-rows = subprocess.run(["/verif/tools/seedtable.py", "7"], capture_output=True, text=True).stdout.strip()
+"""tools/wave3doc.py -- refresh the third- and fourth-wave rows and counts of DESIGN.md 12.6 from seeded/*/meta.json (idempotent)."""
+import json, pathlib, re
+
+WAVE4 = {"C05-10", "C05-11", "C05-12", "C10-10", "C10-11", "C11-10", "C11-11", "C11-12", "C13-10", "C13-11", "C13-12", "C16-10", "C16-11", "C19-10"}
+
+
+def rows_of(ids):
+    out = []
+    for d in sorted((pathlib.Path("/verif/seeded") / i for i in ids), key=lambda p: (p.name.split("-")[0], int(p.name.split("-")[1]))):
+        m = json.loads((d / "meta.json").read_text())
+        title = next((ln for ln in m["breaks"] if ln.strip()), "").lstrip("# ").strip()
+        title = re.sub(r"^(C\d\d\s*/\s*round \d\s*/\s*)?[Mm]utant\s*\d+\s*(--|—|-|:)\s*", "", title)
+        title = re.sub(r"^C\d\d mutant \d+\s*(--|—|-|:)\s*", "", title)
+        out.append(f"| {d.name} | {title.replace('|', '/')} | {m['needs_to_manifest'].replace('|', '/')} | {m['detected_by_check']} |")
+    return "\n".join(out), [json.loads((pathlib.Path('/verif/seeded') / i / 'meta.json').read_text()) for i in ids]
+
+
+all_ids = [d.name for d in pathlib.Path("/verif/seeded").iterdir() if int(d.name.split("-")[1]) >= 7 and (d / "meta.json").exists()]
+w3 = [i for i in all_ids if i not in WAVE4]
+w4 = [i for i in all_ids if i in WAVE4]
 p = "/verif/DESIGN.md"
 s = open(p).read()
-s = re.sub(r"<!-- wave3 rows begin -->.*?<!-- wave3 rows end -->", "<!-- wave3 rows begin -->\n" + rows + "\n<!-- wave3 rows end -->", s, flags=re.S)
-metas = [json.loads((d / "meta.json").read_text()) for d in pathlib.Path("/verif/seeded").iterdir() if int(d.name.split("-")[1]) >= 7 and (d / "meta.json").exists()]
-n = len(metas)
-yes = sum(1 for m in metas if m["detected_by_check"] == "yes")
+r3, m3 = rows_of(w3)
+r4, m4 = rows_of(w4)
+s = re.sub(r"<!-- wave3 rows begin -->.*?<!-- wave3 rows end -->", lambda _: "<!-- wave3 rows begin -->\n" + r3 + "\n<!-- wave3 rows end -->", s, flags=re.S)
+s = re.sub(r"<!-- wave4 rows begin -->.*?<!-- wave4 rows end -->", lambda _: "<!-- wave4 rows begin -->\n" + r4 + "\n<!-- wave4 rows end -->", s, flags=re.S)
+n, yes = len(m3), sum(1 for m in m3 if m["detected_by_check"] == "yes")
 s = re.sub(r"Of the \d+\nreturned(?: so far)?, \d+ were caught at once and \d+ after", f"Of the {n}\nreturned, {yes} were caught at once and {n - yes} after", s)
 open(p, "w").write(s)
-print(n, yes)
+print("wave 3:", n, yes, "wave 4:", len(m4), {k: sum(1 for m in m4 if m["detected_by_check"] == k) for k in ("yes", "after-strengthening", "no")})
